@@ -57,9 +57,7 @@ const (
 // turns switches off for one run (used to try a candidate fix in a scratch
 // copy through VERIF_REPO without editing this file).
 var openFindings = map[string]bool{
-	f12: true,
-	f13: true,
-	f24: true,
+	// all three repaired in /repo (cfa7376, 8ee653f, 80f6696); reproducers moved to replays/C08/fixed
 }
 
 var knownWhat = map[string]string{
